@@ -37,7 +37,7 @@ TASK: produce THREE INDEPENDENT changes (numbered 1, 2, 3), each of which alone 
 4. Save the change alone: `git -C {wt} diff -- src > /tmp/{pid}{n}-change-k.patch`.
 When all three are done: `git -C {wt} checkout -- src` (leave the tree clean, with the three untracked demo files in tests/), and remove the build output (`rm -rf {wt}/target`).
 
-STYLE for this round: two conditions at once, and what happens after something went wrong. Make each bug need the COINCIDENCE of two things that are each common on their own — two settings of the configuration, a setting and a property of the peer's message, a message kind and the state the object is in, a size and an alignment, a flag of the header and a length form, a feature and an error — so that testing each condition alone (or all single deviations from a default) shows nothing. Good places: code shared by two paths where one caller passes a slightly different argument; an `if a && b` that should be `a || b` or the reverse; a default that is only right when another option has its default too; a clean-up or error path that leaves half-updated state which only matters if the caller continues; a value computed before an adjustment and used after it; a bound checked against one field and applied to another; handling that is correct for the first element of a list but not for later ones; something that only differs for the LAST element / the last byte of a block. At least one of your three changes must be on an error / refusal / early-return path (what the object does AFTER it returned an error once, or after the peer refused something), and at least one must need a pair of non-default settings or message features together.
+STYLE for this round: refactorings that break an invariant BETWEEN two pieces of code that each look right alone. Ideas: a helper gains a parameter whose default is wrong for exactly one of its callers; a constant that exists in two places is changed in one; units are confused (bytes vs UTF-16 units vs pixels vs bits; inclusive vs exclusive upper bound; 0-based vs 1-based counter; length with vs without the header or the terminator); a cast narrows or sign-extends on one side of an interface only; one field of a structure switches endianness or width on the writing side but not on the reading side (or the reverse); a value is normalised (upper-cased, trimmed, clamped, rounded up to a multiple) in one place and compared with the un-normalised value in another; a builder/encoder and the matching parser/validator drift apart for one rarely used variant; an early-exit optimisation (nothing to do when empty / when equal to the previous value / when already in that state) skips a side effect that a later step relies on. Each change must keep every ordinary session working and show only for specific values, sizes or sequences. Prefer places where the existing unit tests pin bytes of the common case only.
 
 These ideas have ALREADY been used by others for this property — do something different from all of them: {' | '.join(used) if used else '(none)'}
 
